@@ -103,7 +103,7 @@ Fixpoint erase_empty (j : json) : json :=
   | _ => j
   end.
 
-Definition json_eq_mod_empty (a b : json) : bool := json_eq (erase_empty (canon a)) (erase_empty (canon b)).
+Definition json_eq_mod_empty (a b : json) : bool := json_eq (erase_empty a) (erase_empty b).
 
 (* ---------- equality up to omitted null members (C01) ----------
    le_null d e : e is d with some members whose value is null removed (at any depth). Asymmetric. *)
